@@ -7,6 +7,7 @@ import (
 
 	"github.com/gordian-engine/gordian/tm/tmconsensus"
 	"github.com/gordian-engine/gordian/tm/tmengine/internal/tmmirror"
+	"github.com/gordian-engine/gordian/tm/tmengine/internal/tmstate"
 )
 
 // The Mirror follows the state of the active validators on the network,
@@ -30,19 +31,39 @@ func NewMirror(ctx context.Context, log *slog.Logger, opts ...Opt) (Mirror, erro
 	// Note that we never start the Engine we instantiate.
 	var e Engine
 
+	// Options shared with the full engine also record their value on the state machine's config
+	// (schemes, watchdog, assertion environment), so they need somewhere to write to.
+	// The standalone mirror has no state machine; this value is discarded.
+	var unusedSMCfg tmstate.StateMachineConfig
+
 	var err error
 	for _, opt := range opts {
-		err = errors.Join(opt(&e, nil))
+		// Accumulate, so that every rejected option is reported.
+		err = errors.Join(err, opt(&e, &unusedSMCfg))
 	}
 	if err != nil {
 		return nil, err
 	}
 
 	cfg := e.mCfg
-	cfg.InitialHeight = e.genesis.InitialHeight
-	cfg.InitialValidatorSet = e.genesis.GenesisValidatorSet
+	if e.genesis == nil {
+		// The remaining settings are still validated below,
+		// so that all missing options are reported together.
+		err = errors.Join(err, errors.New("no genesis set (use tmengine.WithGenesis)"))
+	} else {
+		cfg.InitialHeight = e.genesis.InitialHeight
+		cfg.InitialValidatorSet = e.genesis.GenesisValidatorSet
 
-	if err := validateMirrorSettings(cfg); err != nil {
+		if len(cfg.InitialValidatorSet.Validators) == 0 {
+			err = errors.Join(err, errors.New("genesis has no validators (see tmengine.WithGenesis)"))
+		}
+	}
+
+	if e.watchdog == nil {
+		err = errors.Join(err, errors.New("no watchdog set (use tmengine.WithWatchdog)"))
+	}
+
+	if err := errors.Join(err, validateMirrorSettings(cfg)); err != nil {
 		return nil, err
 	}
 
